@@ -23,8 +23,8 @@ def create_cache(
 ) -> LRUCache | HybridCache | DiskCache | SimpleCache | None:
     if cache_type is None:
         return None
-    if cache_kwargs is None:
-        cache_kwargs = {}
+    # A copy: the defaults filled in below belong to this cache, not to the caller's dict
+    cache_kwargs = dict(cache_kwargs) if cache_kwargs is not None else {}
     if cache_type == "lru":
         cache_kwargs.setdefault("shared", not lazy)
         return LRUCache(**cache_kwargs)
@@ -40,7 +40,10 @@ def create_cache(
         return HybridCache(**cache_kwargs)
     if cache_type == "disk":
         cache_kwargs.setdefault("lru_shared", not lazy)
-        cache_kwargs.setdefault("cache_dir", tempfile.gettempdir())
+        if "cache_dir" not in cache_kwargs:
+            # A private directory: the cache is per pipeline (the shared temp directory would
+            # serve entries of other pipelines with the same output and argument names)
+            cache_kwargs["cache_dir"] = tempfile.mkdtemp(prefix="pipefunc-cache-")
         return DiskCache(**cache_kwargs)
     if cache_type == "simple":
         return SimpleCache()
